@@ -7,3 +7,10 @@ import SF.Props.C09
 #print axioms SF.C09.onePole_decay
 #print axioms SF.C09.Real.pole_radius
 #print axioms SF.C09.Real.pole_product
+#print axioms SF.C09.Real.superSmoother_bibo
+#print axioms SF.C09.Real.superSmoother_view_bibo
+#print axioms SF.C09.Real.flex_smoother_bibo
+#print axioms SF.C09.Real.twoPole_bibo
+#print axioms SF.C09.Real.superSmoother_fading
+#print axioms SF.C09.Real.fading_dominates
+#print axioms SF.C09.Real.contraction_factor
